@@ -86,6 +86,21 @@ fn gen_input(family: &str, n: usize) -> Vec<u8> {
             }
             s.push_str("*a\n");
         }
+        // eight anchored block nests of depth n, each ending in an alias to the previous one: the
+        // nesting reached through alias replay is 8 x n and must be stopped by the depth budget
+        "alias-chained-nests" => {
+            for i in 0..8 {
+                s.push_str(&format!("l{i}: &l{i}\n  "));
+                for _ in 0..n {
+                    s.push_str("- ");
+                }
+                if i == 0 {
+                    s.push_str("x\n");
+                } else {
+                    s.push_str(&format!("*l{}\n", i - 1));
+                }
+            }
+        }
         "merge-chain" => {
             s.push_str("m0: &m0 {k: 1}\n");
             for i in 1..=n {
@@ -142,14 +157,14 @@ fn bytes_of(i: &Input) -> Vec<u8> {
     }
 }
 
-use vcheck::c01_core::{option_family, reader_hazard, run_all};
+use vcheck::c01_core::{option_family, reader_hazard_opts, run_all};
 
 fn check_case(c: &Case) -> Outcome {
     let fam = option_family();
     let o = fam[c.opts % fam.len()].clone();
     let b = bytes_of(&c.input);
     let heavy = b.len() > 200_000;
-    let reader_ok = c.force_reader || !reader_hazard(&b);
+    let reader_ok = c.force_reader || !reader_hazard_opts(&b, &o);
     // run on a thread with exactly the stack the property names (8 MiB)
     let handle = std::thread::Builder::new().stack_size(8 << 20).spawn(move || match catch(|| run_all(&b, &o, reader_ok, heavy)) {
         Caught::Ok(Ok(())) => Ok(()),
@@ -303,6 +318,23 @@ impl Property for C01 {
         }
         out
     }
+    /// libFuzzer input: byte 0 = option vector, the rest is the input itself (text when it is
+    /// valid UTF-8, raw bytes otherwise)
+    fn fuzz_decode(data: &[u8]) -> Option<(&'static str, Case, bool)> {
+        let mut b = engine::Bytes::new(data);
+        let opts = b.below(option_family().len());
+        let rest = b.rest();
+        if rest.len() > 4096 {
+            return None;
+        }
+        let input = match std::str::from_utf8(rest) {
+            Ok(s) => Input::Text(s.to_string()),
+            Err(_) => Input::Bytes(rest.to_vec()),
+        };
+        let c = Case { input, opts, force_reader: false };
+        let nt = nontrivial(&c);
+        Some(("fuzz-bytes", c, nt))
+    }
     fn generate(ctx: &mut Ctx<Self>) {
         let nopts = option_family().len();
         let thorough = ctx.tier == Tier::Thorough;
@@ -397,6 +429,9 @@ impl Property for C01 {
         for n in [10usize, 500, 9_999, 10_001] {
             gens.push(("merge-chain", n.min(3000)));
         }
+        for n in [300usize, 1_000, 1_900] {
+            gens.push(("alias-chained-nests", n));
+        }
         gens.push(("wide-seq", 250_000));
         gens.push(("wide-seq", 250_001));
         gens.push(("wide-map", 125_000));
@@ -425,4 +460,10 @@ impl Property for C01 {
 
 fn main() {
     engine::main::<C01>()
+}
+
+/// entry point of the libFuzzer target `fuzz/fuzz_targets/c01.rs`
+#[allow(dead_code)]
+pub fn fuzz(data: &[u8]) {
+    engine::fuzz_one::<C01>(data)
 }
